@@ -3,6 +3,16 @@
 import json, sys
 ALL = [f"C{i:02d}" for i in range(1, 21)]
 CLAIMED = {
+ "C15": dict(
+   technique="stateful model-based testing: generated edit/query histories (proptest vector of operations, shrunk as one value) against a model of effective contents and a fresh-session oracle",
+   text="Exploration. Histories of up to 40 overlay/disk edits and queries (graph, analyze, reports, coverage, executable run, checked_program/materialize_arena, LRU eviction, two more roots) over seven interdependent files with content variants (values of different types, syntax/type errors, non-exhaustive match, imports added/removed/cyclic, right/wrong/invalid companion, missing import, absent files); after every query a fresh session over a fresh directory with the model's effective contents answers the same query and the normalised answers must be equal; edit operations must succeed.",
+   note="trusted base: the content model and normalisation in props/c15.rs; every disk change is followed by refresh_disk; diagnostics compared as sorted multisets",
+   ref="§3 C15"),
+ "C17": dict(
+   technique="exhaustive enumeration of the degenerate sequential schedules + randomised multi-threaded stress (many seeds and thread counts) against a sequential fresh-session oracle keyed by the contents each snapshot saw",
+   text="Exploration. Decided exactly: every (file, variant, root) instance of `snapshot first loads a provider, owner then edits it`, and every ordered selection of 2-3 small programs through check_resolved on one session. Explored by stress: an owner applying edits while 2-14 analyser threads query snapshots inside salsa::Cancelled::catch and allocator threads issue identifiers; every completed analysis must equal the fresh answer for the recorded contents or be Cancelled, identifiers must be pairwise distinct; no progress for 60 s is inconclusive. Interleavings are not enumerated.",
+   note="trusted base: harness mutex discipline (snapshot + model copy taken atomically; no snapshot held across an owner write); all files are inputs before the first snapshot; no deletions in the stress part",
+   ref="§3 C17"),
  "C12": dict(
    technique="mutation-based generation over parseable sources (re-layout, comment insertion, redundant parentheses, nested format directives) with round-trip / metamorphic oracles; formatter behind a killable worker process",
    text="Exploration. Every repository source under several option sets, generated surface terms over the whole grammar and generated core programs are mutated and formatted; the formatter must return, its output must parse, and the desugared structure plus directive payloads must be identical; through the CLI an unparseable file stays byte-identical with a non-zero exit. A per-request watchdog turns exponential layout searches into `inconclusive`. Known open finding F13 (panic on a block comment before code at the start of a thunk) is tolerated by signature.",
